@@ -117,6 +117,14 @@ func c15Scenarios(tier string) (rulesSc, lockSc []CScenario) {
 		CScenario{Name: "atts[0 1] with a damaged record for k1||att(2);att(0)", Garbage: []int{1}, Threads: [][]CReq{{attsN([]int{0, 1}, 0, 1)}, {att1(2, 0, 1), att1(0, 1, 2)}}},
 		CScenario{Name: "atts[1 0] with a damaged record for k1||atts[0 2]", Garbage: []int{1}, Threads: [][]CReq{{attsN([]int{1, 0}, 0, 1)}, {attsN([]int{0, 2}, 1, 2)}}},
 	)
+	// Accounts of two wallets in one request, the wallets named in opposite orders by two requests.
+	for _, cs := range []CScenario{
+		{Name: "two wallets: atts[0 1]||atts[1 0]", TwoWallets: true, Threads: [][]CReq{{attsN([]int{0, 1}, 0, 1)}, {attsN([]int{1, 0}, 1, 2)}}},
+		{Name: "two wallets: atts[0 1 2]||atts[1 2 0]||att(1)", TwoWallets: true, Threads: [][]CReq{{attsN([]int{0, 1, 2}, 0, 1)}, {attsN([]int{1, 2, 0}, 1, 2)}, {att1(1, 2, 3)}}},
+		{Name: "two wallets: signs[0 1]||atts[1 0]", TwoWallets: true, Threads: [][]CReq{{signsN(0, 1)}, {attsN([]int{1, 0}, 1, 2)}}},
+	} {
+		lockSc = append(lockSc, cs)
+	}
 	// An instance that has already served thousands of other keys.
 	lockSc = append(lockSc, CScenario{Name: "att(0)||att(0)||atts[1 0] after many other keys", WarmKeys: warmKeys(tier), Threads: [][]CReq{{att1(0, 0, 1)}, {att1(0, 1, 2)}, {attsN([]int{1, 0}, 2, 3)}}})
 	rulesSc = append(rulesSc, big[1]) // with the real rules and store: the smallest size only (the locks are what matters)
